@@ -69,7 +69,7 @@ Inductive act :=
 | APublish (k : key) (v : ver)                 (* SharedPollPublish reaching this node *)
 | ADeliver (i : nat) (dp1 : bool)              (* in-flight broadcast i reaches the connection *)
 | ALose (i : nat)                              (* ... or never does *)
-| ARevoke (k : key)                            (* SharedPollRevokeKeys matching the connection *)
+| ARevoke (k : key) (others : bool)            (* SharedPollRevokeKeys matching the connection *)
 | AEpochFlip.                                  (* publisher epoch change *)
 
 Fixpoint remove_nth {A : Type} (i : nat) (l : list A) : list A :=
@@ -123,6 +123,7 @@ Section Step.
         else
           let cv := if fresh then 0 else match s_held s k with Some h => h | None => 0 end in
           let held0 := if fresh then None else s_held s k in
+          let is_new := match s_ent s k with Some _ => false | None => true end in
           let ent := match s_ent s k with Some e => e | None => mkEnt 0 false false end in
           (* cached item in the reply / warm direct delivery: both are full payloads of entry.version *)
           if keep && e_data ent && Nat.ltb cv (e_ver ent) then
@@ -131,9 +132,9 @@ Section Step.
                   (upd (s_held s) k (Some (e_ver ent))),
              [PFull k (e_ver ent)])
           else
-            (* no cache: the entry is flagged so that the next poll re-broadcasts it *)
-            let ent' := if negb keep && (Nat.eqb cv 0 || Nat.ltb cv (e_ver ent)) && Nat.ltb 0 (e_ver ent)
-                        then mkEnt (e_ver ent) (e_data ent) true else ent in
+            (* no cached payload: a warm key is flagged so that the next poll re-broadcasts it *)
+            let warm := negb is_new && (Nat.eqb cv 0 || Nat.ltb cv (e_ver ent)) in
+            let ent' := if warm then mkEnt (e_ver ent) (e_data ent) true else ent in
             (mkSt (upd (s_ent s) k (Some ent')) (s_polls s) (s_bc s)
                   (upd (s_conn s) k (Some (mkKs cv false))) true (upd (s_held s) k held0),
              [])
@@ -208,11 +209,12 @@ Section Step.
         end
     | ALose i =>
         (mkSt (s_ent s) (s_polls s) (remove_nth i (s_bc s)) (s_conn s) (s_sub s) (s_held s), [])
-    | ARevoke k =>
+    | ARevoke k others =>
         match s_conn s k with
         | None => (s, [])
         | Some _ =>
-            (mkSt (s_ent s) (s_polls s) (s_bc s) (upd (s_conn s) k None) (s_sub s) (upd (s_held s) k None),
+            (mkSt (if others then s_ent s else upd (s_ent s) k None) (s_polls s) (s_bc s)
+                  (upd (s_conn s) k None) (s_sub s) (upd (s_held s) k None),
              [PRemoved k])
         end
     | AEpochFlip =>
